@@ -1912,6 +1912,92 @@ def _version_chain(ctx, repo):
         raise AnalysisError("feat_defect: fewer than 3 version tests found")
 
 
+def _dtype_by_name_only(ctx, repo, sf, scalar):
+    """store_feature narrows the storage dtype only for features that are
+    *listed by name*: every assignment of a dtype to the local handed to
+    write_ndarray sits under a test `feat in <literal table>` /
+    `feat == "<name>"` (tables resolved through module constants).  A
+    pattern test (endswith / startswith / regular expression / substring)
+    also matches user-defined scalar features (userdef*, plugin and
+    temporary features), whose values are then cast."""
+    fname = sf.args.args[1].arg
+    dnames = {kwarg(c, "dtype").id for c in find_calls(
+        sf, attr="write_ndarray") if isinstance(kwarg(c, "dtype"), ast.Name)}
+    if not dnames:
+        raise AnalysisError("store_feature: dtype local lost")
+    sets = [n for n in walk(sf) if isinstance(n, ast.Assign)
+            and any(isinstance(t, ast.Name) and t.id in dnames
+                    for t in n.targets)
+            and not (isinstance(n.value, ast.Constant)
+                     and n.value.value is None)]
+    if not sets:
+        raise AnalysisError("store_feature: no dtype narrowing found")
+    PATTERN = {"endswith", "startswith", "match", "search", "fullmatch",
+               "find", "count", "index", "rfind"}
+
+    def classify(t):
+        """'name' | 'pattern' | None (unknown)"""
+        if isinstance(t, ast.Name):
+            try:
+                t = deref(repo, WR, sf, t)
+            except AnalysisError:
+                return None
+        if isinstance(t, ast.BoolOp):
+            kinds = [classify(v) for v in t.values]
+            if "pattern" in kinds:
+                return "pattern"
+            return "name" if all(k == "name" for k in kinds) else None
+        if isinstance(t, ast.Compare) and len(t.ops) == 1 \
+                and isinstance(t.left, ast.Name) and t.left.id == fname:
+            c = t.comparators[0]
+            if isinstance(t.ops[0], ast.Eq) and const_str(c) is not None:
+                return "name"
+            if isinstance(t.ops[0], ast.In):
+                try:
+                    lit = deref(repo, WR, sf, c)
+                except AnalysisError:
+                    return None
+                if isinstance(lit, (ast.List, ast.Tuple, ast.Set)) and all(
+                        const_str(e) is not None for e in lit.elts):
+                    miss = sorted({const_str(e) for e in lit.elts} - scalar)
+                    return "name" if not miss else None
+                return None
+        if isinstance(t, ast.Compare) and len(t.ops) == 1 and isinstance(
+                t.ops[0], ast.In) and const_str(t.left) is not None \
+                and fname in names_in(t.comparators[0]):
+            return "pattern"      # "<substring>" in feat
+        for c in ast.walk(t):
+            if isinstance(c, ast.Call) and last_attr(c) in PATTERN and (
+                    fname in names_in(c)):
+                return "pattern"
+        return None
+    for k, st in enumerate(sets):
+        conds = [a for a in ancestors(st) if isinstance(a, ast.If)
+                 and any(st is x for b in a.body for x in walk(b))]
+        conds = [a for a in conds if any(a is x for x in walk(sf))]
+        if not conds:
+            raise AnalysisError(f"store_feature: `{short(st, 30)}` is "
+                                f"unconditional")
+        kinds = [classify(a.test) for a in conds]
+        if "pattern" in kinds:
+            bad = conds[kinds.index("pattern")]
+            ctx.ob("R1.5", False,
+                   f"`{short(st, 30)}` applies under the pattern test "
+                   f"`{short(bad.test, 60)}`: user-defined / plugin features "
+                   f"whose name matches are cast as well (fractions "
+                   f"truncated, negative values wrapped)", node=bad,
+                   label=f"dtype narrowing by listed names only [{k}]")
+        elif all(k_ == "name" for k_ in kinds):
+            ctx.ob("R1.5", True, f"`{short(st, 30)}` applies to features "
+                   f"listed by name", node=st,
+                   label=f"dtype narrowing by listed names only [{k}]")
+        else:
+            raise AnalysisError(
+                f"store_feature: condition of `{short(st, 30)}` "
+                f"(`{short(conds[kinds.index(None)].test, 50)}`) cannot be "
+                f"classified")
+
+
 def r15(ctx, repo):
     wcls = repo.cls(WR, "RTDCWriter")
     bases_w = {"self.h5file"}
@@ -2070,6 +2156,7 @@ def r15(ctx, repo):
                f"the integer dtype is never applied",
                node=repo.module_assign(WR, tab),
                key=f"{WR}::{tab}::names are scalar features")
+    _dtype_by_name_only(ctx, repo, sf, scalar)
     both = seen["FEATURES_UINT32"] & seen["FEATURES_UINT64"]
     ctx.ob("R1.5", not both, "the integer tables are disjoint" if not both
            else f"{sorted(both)} listed as uint32 and uint64",
@@ -3479,6 +3566,13 @@ MUTANTS = [
       "            return self._events[feat]\n"
       "        elif feat in self._usertemp:\n"
       "            return self._usertemp[feat]\n"), "R1.B"),
+    ("uint32 storage for every feature ending in _max / _npeaks", WR,
+     ("        if feat in FEATURES_UINT32:\n",
+      '        if feat in FEATURES_UINT32 or feat.endswith(("_max", '
+      '"_npeaks")):\n'), "R1.5"),
+    ("uint64 storage for every feature starting with 'frame'", WR,
+     ("        elif feat in FEATURES_UINT64:\n",
+      '        elif feat.startswith("frame"):\n'), "R1.5"),
     ("metadata equal to the stored value are not rewritten", WR,
      _metadata_skip_equal, "R1.A"),
     ("ragged entries enumerated from count + 1", WR,
@@ -3630,6 +3724,13 @@ TWINS = [
       "            return self._usertemp[feat]\n",
       "        if feat in self._usertemp:\n"
       "            return self._usertemp[feat]\n")),
+    ("integer dtype chosen through a named condition", WR,
+     ("        if feat in FEATURES_UINT32:\n",
+      "        is_uint32 = feat in FEATURES_UINT32\n"
+      "        if is_uint32:\n")),
+    ("frame dtype chosen by equality", WR,
+     ("        elif feat in FEATURES_UINT64:\n",
+      '        elif feat == "frame":\n')),
 ]
 
 # mutants that re-introduce the repaired defects (apply to the fixed tree)
